@@ -74,6 +74,7 @@ class Sorts:
         for n in self.node_classes:
             for f, _, _ in self.fields[n]:
                 self.owners.setdefault(f, []).append(n)
+        self._preds = {}
         self.all_py_constructors = ["PNone", "PBool", "PInt", "PStr", "PFloat", "PBytes", "PList",
                                     "PTuple", "PDict", "PObj"] + self.node_classes
         self._mk_recfuns()
@@ -98,15 +99,25 @@ class Sorts:
                 return q == "*"
         raise KeyError(field)
 
+    def _pred(self, name, classes):
+        """A defined (macro) predicate  name(t) := is_C1(t) or is_C2(t) …  — keeps terms small."""
+        if name not in self._preds:
+            f = z3.RecFunction(name, self.Py, z3.BoolSort())
+            x = z3.Const("x!p", self.Py)
+            z3.RecAddDefinition(f, [x], z3.Or([self.rec(n)(x) for n in classes])
+                                if classes else z3.BoolVal(False))
+            self._preds[name] = f
+        return self._preds[name]
+
     def is_node(self, t):
-        return z3.Or([self.rec(n)(t) for n in self.node_classes])
+        return self._pred("is_node_p", self.node_classes)(t)
 
     def is_expr(self, t):
-        return z3.Or([self.rec(n)(t) for n in self.expr_classes])
+        return self._pred("is_expr_p", self.expr_classes)(t)
 
     def is_base(self, base, t):
         cs = [n for n in self.node_classes if self.classes[n]["base"] == base]
-        return z3.Or([self.rec(n)(t) for n in cs])
+        return self._pred(f"is_{base}_p", cs)(t)
 
     def pylist(self, items):
         r = self.nil
